@@ -503,3 +503,60 @@ def reject_include_value(nested: bool, route: int, bad_i: int) -> bool:
     hold("path", exc.ref_path == want and str(exc).startswith(want),
          lambda: "ref_path %r / text %r do not name %r" % (exc.ref_path, str(exc), want))
     return True
+
+
+# --------------------------------------------------------------------------- typed dicts as ITEMS of a typed list
+@obligation(prop="C15", sites=("type", "path"), regions=("entry_of_dict_item",), stubs=("MemFormat",),
+            encodes=["cincoconfig.fields.dict_field.DictProxy._validate", "cincoconfig.fields.list_field.ListProxy._validate"],
+            budget={"quick": 120, "thorough": 300},
+            examples=({"nested": False, "route": 0, "in_entry": False, "i": 1}, {"nested": True, "route": 3, "in_entry": False, "i": 0}),
+            what="a typed list whose items are typed dicts (root or nested schema): a wrongly shaped item and an "
+                 "offending entry inside an item, by assignment, tree load, document load, append or entry "
+                 "assignment: ValidationError whose path names the list field")
+def reject_path_dict_in_list(nested: bool, route: int, in_entry: bool, i: int) -> bool:
+    """
+    pre: 0 <= route <= 4 and 0 <= i <= 1
+    post: _
+    """
+    schema = Schema()
+    owner = schema.sub if nested else schema
+    owner.ld = ListField(DictField(StringField(), IntField(min=0)), default=lambda: [])
+    owner.pad = IntField(default=0)
+    base = "sub.ld" if nested else "ld"
+    known("entry_of_dict_item", in_entry)
+    good = {"a": 1}
+    bad_item = {"a": -1} if in_entry else 5
+    items = [good, good]
+    items[i] = bad_item
+    mem = MemStore()
+    exc = None
+    with mem.registered():
+        cfg = schema()
+        target = cfg.sub if nested else cfg
+        try:
+            if route == 0:
+                target.ld = items
+            elif route == 1:
+                cfg.load_tree({"sub": {"ld": items}} if nested else {"ld": items})
+            elif route == 2:
+                cfg.loads(mem.put({"sub": {"ld": items}} if nested else {"ld": items}), format="mem")
+            elif route == 3:
+                target.ld = [good]
+                target.ld.append(bad_item)
+            else:
+                if not in_entry:
+                    skip("entry assignment needs an entry")
+                target.ld = [good, good]
+                target.ld[i]["b"] = -1
+        except Exception as e:  # noqa: BLE001
+            exc = e
+    hold("type", exc is not None and isinstance(exc, ValueError),
+         lambda: "offending value accepted or wrong exception: %r" % (exc,))
+    if isinstance(exc, ValidationError):
+        hold("path", exc.ref_path.startswith(base) and str(exc).startswith(base),
+             lambda: "error path %r does not name the list field %r" % (exc.ref_path, base))
+    else:
+        # a direct mutator on the list value raises the item field's bare ValueError (like built-in containers);
+        # the path clause applies to rejections that come back as the library's validation error
+        hold("path", route == 3 and not in_entry, lambda: "rejection surfaced as %r" % (exc,))
+    return True
